@@ -524,6 +524,8 @@ class World:
             return pkg.BPlusTreeMap(capacity=self.cap), "None"
         except ValueError:
             return None, "ValueError"
+        except OverflowError:          # PyArg_ParseTupleAndKeywords "|i": outside the C int range
+            return None, "OverflowError"
 
     def run(self, status):
         hid = self.hid
@@ -535,6 +537,8 @@ class World:
         self.t, o0 = self.construct()
         self.out.append("O %s 0 %s" % (hid, o0))
         want = "None" if 4 <= self.cap <= 65535 else "ValueError"
+        if want == "ValueError" and o0 == "OverflowError":
+            want = o0                  # rejected either way; which exception is not part of the property
         if o0 != want:
             self.viol.append("VIOL C13 %s 0 capacity %d: constructor answered %s, expected %s" % (hid, self.cap, o0, want))
         self.observe(None, True)
